@@ -118,6 +118,13 @@ func (fs *ReadOnlyFS) copyFile(name string, f hackpadfs.File, info hackpadfs.Fil
 	if err == nil {
 		err = closeErr
 	}
+	if err == nil {
+		// OpenFile only applies the permission bits: give the copy the source's whole mode (setuid, sticky, ...), its Stat is what later opens report
+		err = hackpadfs.Chmod(fs.cacheFS, name, info.Mode())
+		if errors.Is(err, hackpadfs.ErrNotImplemented) {
+			err = nil
+		}
+	}
 	if err != nil {
 		// do not leave a partial file in the cache, a later Open would serve it as if it were complete
 		if rmErr := hackpadfs.Remove(fs.cacheFS, name); rmErr != nil && !errors.Is(rmErr, hackpadfs.ErrNotExist) {
